@@ -1,3 +1,116 @@
-import GV.Orch.Spec
+/-
+  C05 — Mix, inverse-mix, N-M models: stage barriers hold, scheduled rules run once.
+
+  (1) Every mixed method's extracted skeleton conforms to the reference semantics: which
+      rules are scheduled, in which stage, under both error policies, for all n, m, rule sets
+      and failing subsets; every fan-out has Add = number of goroutines, Done on all paths and
+      a Wait before the next stage (`parOk`, part of `Conforms`).
+  (2) `barrier`: for such a stage plan, under every interleaving of the goroutines, the event
+      history is one complete segment per stage in stage order: every rule of stage i has
+      ended before any rule of stage j > i starts, each scheduled rule starts and ends exactly
+      once, nothing else runs.
+-/
+import GV.Orch.AllConform
+import GV.Orch.Sched
 namespace GV.Props.C05
+open GV.Orch GV.Generated.Orch
+
+theorem C05_ExecuteMixModel : Conforms ExecuteMixModel .ExecuteMixModel := All.conf_ExecuteMixModel
+theorem C05_ExecuteSelectedRulesMixModel :
+    Conforms ExecuteSelectedRulesMixModel .ExecuteSelectedRulesMixModel := All.conf_ExecuteSelectedRulesMixModel
+theorem C05_ExecuteInverseMixModel : Conforms ExecuteInverseMixModel .ExecuteInverseMixModel :=
+  All.conf_ExecuteInverseMixModel
+theorem C05_ExecuteSelectedRulesInverseMixModel :
+    Conforms ExecuteSelectedRulesInverseMixModel .ExecuteSelectedRulesInverseMixModel :=
+  All.conf_ExecuteSelectedRulesInverseMixModel
+theorem C05_ExecuteNSortMConcurrent : Conforms ExecuteNSortMConcurrent .ExecuteNSortMConcurrent :=
+  All.conf_ExecuteNSortMConcurrent
+theorem C05_ExecuteNConcurrentMSort : Conforms ExecuteNConcurrentMSort .ExecuteNConcurrentMSort :=
+  All.conf_ExecuteNConcurrentMSort
+theorem C05_ExecuteNConcurrentMConcurrent :
+    Conforms ExecuteNConcurrentMConcurrent .ExecuteNConcurrentMConcurrent := All.conf_ExecuteNConcurrentMConcurrent
+theorem C05_ExecuteSelectedNSortMConcurrent :
+    Conforms ExecuteSelectedNSortMConcurrent .ExecuteSelectedNSortMConcurrent :=
+  All.conf_ExecuteSelectedNSortMConcurrent
+theorem C05_ExecuteSelectedNConcurrentMSort :
+    Conforms ExecuteSelectedNConcurrentMSort .ExecuteSelectedNConcurrentMSort :=
+  All.conf_ExecuteSelectedNConcurrentMSort
+theorem C05_ExecuteSelectedNConcurrentMConcurrent :
+    Conforms ExecuteSelectedNConcurrentMConcurrent .ExecuteSelectedNConcurrentMConcurrent :=
+  All.conf_ExecuteSelectedNConcurrentMConcurrent
+
+/-- The barrier, for every stage plan and every interleaving. -/
+theorem C05_barrier {stages : List (List Name)} {s : Sched.LSt} (h : Sched.Reach stages s)
+    (hfin : s.idx = stages.length) : ∃ segs, s.hist = segs.flatten ∧ Sched.SegsOk stages segs :=
+  Sched.barrier h hfin
+
+theorem C05_counter_exact {stages : List (List Name)} {s : Sched.LSt} (h : Sched.Reach stages s) :
+    s.wg = s.todo.length + s.spawned.length + s.running.length := Sched.counter_exact h
+
+theorem C05_progress {stages : List (List Name)} {s : Sched.LSt} (h : Sched.Reach stages s)
+    (hlt : s.idx < stages.length) : ∃ t, Sched.Step stages s t := Sched.progress h hlt
+
+/-- The trace checker used against the implementation accepts only histories of that shape. -/
+theorem C05_checker_sound (stages : List (List Name)) (evs : List Ev) (h : acceptsTrace stages evs = true) :
+    ∃ segs, evs = segs.flatten ∧ Sched.SegsOk stages segs := Sched.acceptsTrace_sound stages evs h
+
+/-! ### Clauses of the statement, read off the reference semantics -/
+
+/-- mix: nothing else runs if the first rule fails. -/
+theorem mix_first_fails (cfg : Cfg) (f : Rule) (rest : List Rule) (h : fails cfg f = true) :
+    mixFamily cfg (f :: rest) false = [[f]] := by simp [mixFamily, h]
+
+/-- mix: otherwise the first rule alone, then all the others in one concurrent stage. -/
+theorem mix_first_ok (cfg : Cfg) (f : Rule) (rest : List Rule) (h : fails cfg f = false) :
+    mixFamily cfg (f :: rest) false = [f] :: parStage rest := by simp [mixFamily, h]
+
+/-- inverse-mix with more than two rules: the last rule runs iff none of the others failed. -/
+theorem inverse_last (cfg : Cfg) (order : List Rule) (h : 2 < order.length) :
+    inverseFamily cfg order =
+      if (order.take (order.length - 1)).any (fails cfg) then [order.take (order.length - 1)]
+      else [order.take (order.length - 1)] ++ singletons (order.drop (order.length - 1)) := by
+  have : ¬ order.length ≤ 2 := by omega
+  simp [inverseFamily, this]
+
+theorem takeThrough_sublist (p : α → Bool) (l : List α) : (takeThrough p l).Sublist l := by
+  induction l with
+  | nil => simp [takeThrough]
+  | cons a l ih =>
+    unfold takeThrough
+    split
+    · simp
+    · exact ih.cons₂ a
+
+theorem stage_sublist (cfg : Cfg) (rs : List Rule) :
+    (sortFamily cfg rs cfg.b false).flatten.Sublist rs := by
+  simp [sortFamily]; exact takeThrough_sublist _ _
+
+/-- N-M: only rules of the window (the first n+m of the order) ever run, stage one before
+    stage two. -/
+theorem nm_window (cfg : Cfg) (order : List Rule) (k1 k2 : StageKind) :
+    (nmFamily cfg order k1 k2).flatten.Sublist
+      (order.take cfg.n.toNat ++ (order.drop cfg.n.toNat).take cfg.m.toNat) := by
+  have s1 : ∀ k rs, (stageRun cfg k rs).flatten.Sublist rs := by
+    intro k rs; cases k
+    · exact stage_sublist cfg rs
+    · simp [stageRun]
+  rw [nmFamily_eq]
+  split
+  · exact (s1 k1 _).trans (List.sublist_append_left _ _)
+  · rw [List.flatten_append]
+    exact List.Sublist.append (s1 k1 _) (s1 k2 _)
+
+/-- Non-vacuity of the barrier theorem: a two-stage plan has a reachable final state. -/
+example : ∃ s, Sched.Reach [["a"], ["b"]] s ∧ s.idx = 2 := by
+  have r0 := Sched.Reach.init (stages := [["a"], ["b"]])
+  have r1 := r0.step (.spawn _ "a" (by simp [Sched.init, Sched.stageAt]))
+  have r2 := r1.step (.start _ "a" (by simp))
+  have r3 := r2.step (.finish _ "a" (by simp))
+  have r4 := r3.step (.pass _ (by simp [Sched.init, Sched.stageAt]) (by simp [Sched.init, Sched.stageAt]) (by simp [Sched.init]))
+  have r5 := r4.step (.spawn _ "b" (by simp [Sched.init, Sched.stageAt]))
+  have r6 := r5.step (.start _ "b" (by simp))
+  have r7 := r6.step (.finish _ "b" (by simp))
+  have r8 := r7.step (.pass _ (by simp [Sched.init, Sched.stageAt]) (by simp [Sched.init, Sched.stageAt]) (by simp [Sched.init]))
+  exact ⟨_, r8, rfl⟩
+
 end GV.Props.C05
